@@ -363,7 +363,13 @@ func pickHeads(p1 []*Case, acc map[int]bool, max int) [][]string {
 			peerFirst = k.Args
 		}
 	}
-	for _, h := range [][]string{peerLast, peerFirst} {
+	// ... and, whether phase 1 happened to draw them or not, the plain ways of
+	// naming a peer: alone, after a path, before a path
+	fixed := [][]string{peerLast, peerFirst}
+	for _, t := range []string{"http://127.0.0.1:1"} {
+		fixed = append(fixed, []string{t}, []string{"/", t})
+	}
+	for _, h := range fixed {
 		if h != nil && !seen[strings.Join(h, "\x00")] {
 			seen[strings.Join(h, "\x00")] = true
 			heads = append(heads, h)
@@ -379,11 +385,14 @@ func genPhase2(c *lib.Ctx, d *dirVocab, heads [][]string, b budget) []*Case {
 	mk := func(h []string, line []string) *Case {
 		return &Case{Dir: d.name, Args: h, Block: true, Lines: [][]string{line}, Phase: 2}
 	}
+	namesPeer := func(h []string) bool {
+		return len(h) > 0 && strings.Contains(h[len(h)-1], "127.0.0.1:1")
+	}
 	for hi, h := range heads {
 		for _, kw := range d.KW {
 			must = append(must, mk(h, []string{kw}))
 			for _, a := range d.C {
-				if hi <= 1 {
+				if hi <= 1 || namesPeer(h) {
 					must = append(must, mk(h, []string{kw, a}), mk(h, []string{kw, "", a}), mk(h, []string{kw, a, ""}))
 				} else {
 					rest = append(rest, mk(h, []string{kw, a}))
